@@ -183,6 +183,18 @@ def rule_b(ctx):
                  if any(isinstance(e, dict) and e.get("n") == "lines" and ends(e.get("o"), SUBR) for e in pl["p"])]
         okc = len(fw) == 1 and reads and all(b.dominates(fw[0][0], bb) for bb, _ in reads)
         ctx.check(okc, "C10-B", "%s:flush-then-lines" % b.name, b.span, b.id, "")
+        # sibling agreement: apart from flush_wrapping neither conversion changes the renderer — no other
+        # SubRenderer method is called and no field of self is written or mutably borrowed
+        others = sorted({callee_def(t2).split("::")[-1] for _bb2, t2 in b.calls(
+            lambda cd, t2: (cd.startswith("render::text_renderer::SubRenderer::<D>::") or
+                            cd.startswith("<render::text_renderer::SubRenderer<D> as render::Renderer>::")) and
+            not ends(cd, "SubRenderer::<D>::flush_wrapping") and not ends(cd, "SubRenderer::<D>::to_string"))})
+        muts = sorted({[e.get("n") for e in pl["p"] if isinstance(e, dict) and "f" in e and ends(e.get("o"), SUBR)][0]
+                       for (bb, where, pl, acc) in b.all_places()
+                       if acc in ("write", "refmut") and any(isinstance(e, dict) and "f" in e and ends(e.get("o"), SUBR) for e in pl["p"])})
+        ctx.check(not others and not muts, "C10-B", "%s:only-flush_wrapping-touches-the-renderer" % b.name, b.span, b.id,
+                  "the string route and the line route must finish a renderer identically (flush, then convert self.lines); "
+                  "here other renderer methods %s are called / fields %s are modified" % (others, muts))
     # RenderLine::to_string and into_tagged_line use the same border rendering
     ts = F.one("RenderLine::<T>::to_string")
     tl = F.one("RenderLine::<T>::into_tagged_line")
